@@ -45,6 +45,8 @@ def make(d, k, c, seed):
     hdrs = []
     for t in range(nt):
         h = {segyio.TraceField.CDP: t + 1, segyio.TraceField.CDP_X: 1000 + 10 * t, segyio.TraceField.offset: 3, segyio.TraceField.FieldRecord: 20000 + t * t}
+        if k % 2:           # words that vary along the line but are 0 on its first trace (a counter from 0, an elevation of 0 at the line start)
+            h[segyio.TraceField.ShotPoint], h[segyio.TraceField.ReceiverGroupElevation] = t, -5 * t
         if v == 'il':
             h[segyio.TraceField.INLINE_3D], h[segyio.TraceField.CROSSLINE_3D] = 7, (100 + 2 * t, -4 + 2 * t)[(k // 2) % 2]
         elif v == 'xl':
